@@ -122,8 +122,8 @@ func commentSites(src string) map[string]string {
 				ctx = "/array"
 			}
 		}
-		if rn, ok := n.(*ast.RuneNode); ok {
-			where += fmt.Sprintf("'%c'", rn.Rune)
+		if rn, ok := n.(*ast.RuneNode); ok && rn.Rune != 0 {
+			where += fmt.Sprintf("'%c'", rn.Rune) // (the EOF token is a RuneNode with rune 0: plain "FileNode.EOF")
 		}
 		valueHasTrailing, compositeValue := false, false
 		if len(parents) == 0 {
@@ -369,16 +369,51 @@ func pickCause(sites []string) string {
 // cause is that position.  A failure that survives every neutralisation and the removal of
 // all comments keeps the bare base class.
 func classify(p *program, v verdict) string {
+	cs, _ := classifyAll(p, v)
+	return cs[0]
+}
+
+// classifyAll returns EVERY class the failing verdict v of program p stands for, and the
+// RESIDUAL program: p with the constructs / comments that explain those classes taken out.
+// The caller judges the residual program again (and again, a few levels deep), so that a
+// failure explained by a recorded finding never hides a second, unrelated failure of the
+// same program: a comment-dropped verdict lists every missing comment and each is classified
+// by its own grammar position; the comment-moved / idempotence / descriptor checks, which
+// judge() only reaches when no comment is missing, then run on the residual program.
+func classifyAll(p *program, v verdict) (classes []string, residual *program) {
 	base := v.class
 	src := p.render()
 	switch base {
 	case "comment-dropped", "comment-invented", "comment-moved":
-		if v.comment != "" {
-			if s, ok := commentSites(src)[v.comment]; ok {
-				return base + ":" + rootCause(s)
+		cms := v.comments
+		if len(cms) == 0 && v.comment != "" {
+			cms = []string{v.comment}
+		}
+		sites := commentSites(src)
+		seen := map[string]bool{}
+		for _, k := range cms {
+			c := base
+			if s, ok := sites[k]; ok {
+				c = base + ":" + rootCause(s)
+			}
+			if !seen[c] {
+				seen[c] = true
+				classes = append(classes, c)
 			}
 		}
-		return base
+		if len(classes) == 0 {
+			classes = []string{base}
+		}
+		if base != "comment-invented" && len(cms) > 0 {
+			residual = p
+			for _, k := range cms {
+				residual = residual.withoutComment(k)
+			}
+			if residual.render() == src {
+				residual = nil
+			}
+		}
+		return classes, residual
 	}
 	mask := make([]bool, len(neutralisers))
 	passedAt := -1
@@ -399,7 +434,7 @@ func classify(p *program, v verdict) string {
 		}
 		for i, n := range neutralisers {
 			if mask[i] {
-				return base + ":" + n.cause // the first necessary construct
+				return []string{base + ":" + n.cause}, applyAll(p, mask) // the first necessary construct
 			}
 		}
 	}
@@ -409,7 +444,7 @@ func classify(p *program, v verdict) string {
 		stripped = stripped.withoutComment(k)
 	}
 	if failsWith(stripped, base) {
-		return base
+		return []string{base}, nil
 	}
 	// needs comments at particular sites: find a 1-minimal set of comments
 	cur := q
@@ -439,5 +474,10 @@ func classify(p *program, v verdict) string {
 	if len(ss) > 3 {
 		ss = ss[:3]
 	}
-	return base + ":" + pickCause(ss)
+	// residual: the ORIGINAL program without the comments that are necessary for this failure
+	residual = p
+	for _, k := range needed {
+		residual = residual.withoutComment(k)
+	}
+	return []string{base + ":" + pickCause(ss)}, residual
 }
